@@ -128,6 +128,9 @@ type cand struct {
 	kind   string // mutation operator (fingerprint)
 	expect bool   // generator's expectation: authorised
 	boxed  bool
+	// a modify-signers transaction: the list it registers and for which account
+	sets    types.Signers
+	setsFor common.Address
 }
 
 type acct struct {
@@ -196,6 +199,7 @@ func scenario(c *run.Ctx, idx int) {
 	M, V := cl.Nodes[0], cl.Nodes[1]
 	B := cl.G.B
 	W := cl.W
+	registered := map[common.Address]types.Signers{}
 	step := func(cs []cand, note string) (*types.Block, []cand) {
 		// the term-snapshot block stays empty: a vote change inside it is C10's known finding (NewTermRecord panics when
 		// the block becomes stable), not an authorisation verdict
@@ -280,6 +284,28 @@ func scenario(c *run.Ctx, idx int) {
 				return nil, nil
 			}
 		}
+		// the registered signer lists as the harness knows them from the modify-signers transactions that took effect: the
+		// state behind the new block has to hold exactly these (the predicate above reads the lists from that state)
+		for _, x := range effective {
+			if x.sets != nil {
+				registered[x.setsFor] = x.sets
+			}
+		}
+		post := account.NewManager(blk.Hash(), M.DB)
+		for a, want := range registered {
+			c.Stat("registered_signer_lists_compared_with_the_state", 1)
+			got := post.GetAccount(a).GetSigners()
+			same := len(got) == len(want)
+			wm := want.ToSignerMap()
+			for _, sg := range got {
+				if w, ok := wm[sg.Address]; !ok || w != sg.Weight {
+					same = false
+				}
+			}
+			if !same {
+				c.Violation("C06/registered-signers-differ-from-the-change-that-took-effect", fmt.Sprintf("[%s] account %s: the last modify-signers transaction that took effect registered %s, the state behind block %d holds %s", note, a.Hex(), want.String(), blk.Height(), got.String()), witness{Scn: cl.Witness(t, sc, note)})
+			}
+		}
 		_ = V
 		cl.Adopt(blk)
 		cl.StabiliseAll()
@@ -361,16 +387,33 @@ func scenario(c *run.Ctx, idx int) {
 		return s
 	}
 	cs = []cand{
-		{tx: B.ModifySigners(U[1], ms.addr, toSigners(ms), exp()), kind: "setup-multisig", expect: true},
-		{tx: B.ModifySigners(U[2], mp.addr, toSigners(mp), exp()), kind: "setup-multisig-payer", expect: true},
+		{tx: B.ModifySigners(U[1], ms.addr, toSigners(ms), exp()), kind: "setup-multisig", expect: true, sets: toSigners(ms), setsFor: ms.addr},
+		{tx: B.ModifySigners(U[2], mp.addr, toSigners(mp), exp()), kind: "setup-multisig-payer", expect: true, sets: toSigners(mp), setsFor: mp.addr},
 		{tx: B.Transfer(W.Founder, tmpAddr, fx.LEMO(50000), exp()), kind: "fund-temp", expect: true},
-		{tx: B.ModifySigners(U[3], tmpAddr, toSigners(tmp), exp()), kind: "setup-temp-multisig", expect: true},
+		{tx: B.ModifySigners(U[3], tmpAddr, toSigners(tmp), exp()), kind: "setup-temp-multisig", expect: true, sets: toSigners(tmp), setsFor: tmpAddr},
 	}
 	if b, eff := step(cs, "account setup"); b == nil || len(eff) != len(cs) {
 		c.Note("account setup not fully packaged")
 		return
 	}
 	cl.G.U.Addr(tmpAddr)
+	// only the weights of the multi-signature account change (its first signer is demoted), and somebody else pays the
+	// gas: the account itself has no other change in that block
+	{
+		ws2 := append([]int{}, ms.weights...)
+		ws2[0] = 1
+		ws2[1] = 100
+		old := ms.quorum()
+		ms.weights = ws2
+		data, _ := json.Marshal(struct {
+			Signers types.Signers `json:"signers"`
+		}{toSigners(ms)})
+		tx := B.Reimbursed(params.ModifySignersTx, old, ms.addr, &ms.addr, pp.addr, []fx.Key{pp.own}, big.NewInt(0), data, 2000000, fx.GasPrice, exp())
+		if b, eff := step([]cand{{tx: tx, kind: "reweigh-paid-by-somebody-else", expect: true, sets: toSigners(ms), setsFor: ms.addr}}, "weights only, gas reimbursed"); b == nil || len(eff) != 1 {
+			c.Note("reimbursed reweigh not packaged")
+			return
+		}
+	}
 	accts := []*acct{plain, ms, tmp}
 	payers := []*acct{nil, pp, mp}
 	outsider := fx.NewKey("foreign", idx)
@@ -680,9 +723,9 @@ func scenario(c *run.Ctx, idx int) {
 	newKeys := []fx.Key{fx.NewKey(fmt.Sprintf("rotated-%d", idx), 0), fx.NewKey(fmt.Sprintf("rotated-%d", idx), 1)}
 	rot := types.Signers{{Address: newKeys[0].Addr, Weight: 60}, {Address: newKeys[1].Addr, Weight: 60}}
 	rotate := []cand{
-		{tx: signSender(B.ModifySignersUnsigned(ms.addr, ms.addr, rot, exp()), false, ms.quorum()...), kind: "stale:rotate-multisig-signers", expect: true},
-		{tx: B.ModifySigners(U[7], U[7].Addr, rot, exp()), kind: "stale:plain-becomes-multisig", expect: true},
-		{tx: signSender(B.ModifySignersUnsigned(mp.addr, mp.addr, rot, exp()), false, mp.quorum()...), kind: "stale:rotate-payer-signers", expect: true},
+		{tx: signSender(B.ModifySignersUnsigned(ms.addr, ms.addr, rot, exp()), false, ms.quorum()...), kind: "stale:rotate-multisig-signers", expect: true, sets: rot, setsFor: ms.addr},
+		{tx: B.ModifySigners(U[7], U[7].Addr, rot, exp()), kind: "stale:plain-becomes-multisig", expect: true, sets: rot, setsFor: U[7].Addr},
+		{tx: signSender(B.ModifySignersUnsigned(mp.addr, mp.addr, rot, exp()), false, mp.quorum()...), kind: "stale:rotate-payer-signers", expect: true, sets: rot, setsFor: mp.addr},
 		{tx: B.Transfer(W.Founder, ms.addr, fx.LEMO(200000000), exp()), kind: "fund", expect: true},
 		{tx: B.Transfer(W.Founder, U[7].Addr, fx.LEMO(200000000), exp()), kind: "fund", expect: true},
 		{tx: B.Transfer(W.Founder, mp.addr, fx.LEMO(200000000), exp()), kind: "fund", expect: true},
